@@ -7,7 +7,7 @@ import session_checks as sc
 PROPS = ["C13"]
 
 CAUSES = ["peer_close", "peer_reset", "read_timeout", "write_error", "peer_stops_reading", "local_close", "handler_stop", "timer_disconnect"]
-PHASES = ["prelogon", "handshake", "logged", "logout"]
+PHASES = ["prelogon", "handshake", "logged", "logout", "relogged"]
 
 
 def grid(rnd, quick):
@@ -16,7 +16,7 @@ def grid(rnd, quick):
     for role in ("acceptor", "initiator"):
         for cause in CAUSES:
             for phase in PHASES:
-                if cause == "timer_disconnect" and phase != "logged":
+                if cause == "timer_disconnect" and phase not in ("logged", "relogged"):
                     continue
                 if cause in ("write_error", "peer_stops_reading") and phase in ("prelogon", "handshake") and role == "acceptor":
                     pass
